@@ -194,3 +194,37 @@ MUTANTS += [
     m("c09-list-front", "C09", "R09.5", [(FP, "                    interfaces.push_back(dec.read_textstring());", "                    interfaces.insert(interfaces.begin(), dec.read_textstring());")], "interfaces read back in reverse order"),
     m("c09-key", "C09", "R09.1", [(FS, "        sampling_method = 10,\n        anonymization_method = 11,", "        sampling_method = 11,\n        anonymization_method = 10,")], "storage-parameter keys renumbered"),
 ]
+
+MUTANTS += [
+    # ---------------------------------------------------------------- C04
+    m("c04-hoist-insert", "C04", "R04.2", [(B, "    // Client IP address\n    if ((qr_hints & QueryResponseHintsMask::client_address_index) && gr.client_ip) {\n        qr.client_address_index = add_ip_address(*gr.client_ip);",
+                                             "    // Client IP address\n    index_t client_idx = gr.client_ip ? add_ip_address(*gr.client_ip) : 0;\n    if ((qr_hints & QueryResponseHintsMask::client_address_index) && gr.client_ip) {\n        qr.client_address_index = client_idx;")],
+      "client address inserted into the table before its hint is tested"),
+    m("c04-wrong-bit", "C04", "R04.1", [(B, "    if ((qr_hints & QueryResponseHintsMask::transaction_id) && gr.transaction_id) {", "    if ((qr_hints & QueryResponseHintsMask::client_port) && gr.transaction_id) {")],
+      "transaction_id guarded by the client_port bit"),
+    m("c04-wrong-word", "C04", "R04.1", [(B, "        if ((qr_sig_hints & QueryResponseSignatureHintsMask::server_port) && gr.server_port) {", "        if ((qr_hints & QueryResponseSignatureHintsMask::server_port) && gr.server_port) {")],
+      "server_port bit tested in the query-response hint word"),
+    m("c04-ttl-unguarded", "C04", "R04.1", [(B, "        if ((rr_hints & RrHintsMask::ttl) && grr.ttl)\n            rr.ttl = *grr.ttl;", "        if (grr.ttl)\n            rr.ttl = *grr.ttl;")], "rr.ttl stored regardless of its hint"),
+    m("c04-aec-nohint", "C04", "R04.4", [(B, "    if (!(m_block_parameters.storage_parameters.storage_hints.other_data_hints & OtherDataHintsMask::address_event_counts))\n        return false;\n\n    auto found", "    auto found")],
+      "direct add_address_event_count without the hint test"),
+    m("c04-revert-f17", "C04", "R04.4", [(B, "    // Check if Malformed messages are buffered in this Block\n    if (!(m_block_parameters.storage_parameters.storage_hints.other_data_hints & OtherDataHintsMask::malformed_messages))\n        return false;\n\n    std::size_t fields", "    std::size_t fields")],
+      "direct add_malformed_message without the hint test (reverted F17)"),
+    m("c04-mm-wrong-bit", "C04", "R04.4", [(B, "    // Check if Malformed messages are buffered in this Block\n    if (!(m_block_parameters.storage_parameters.storage_hints.other_data_hints & OtherDataHintsMask::malformed_messages))\n        return false;\n\n    // Check if it'll be the first item", "    // Check if Malformed messages are buffered in this Block\n    if (!(m_block_parameters.storage_parameters.storage_hints.other_data_hints & OtherDataHintsMask::address_event_counts))\n        return false;\n\n    // Check if it'll be the first item")],
+      "malformed messages gated by the address-event bit"),
+    m("c04-unreachable", "C04", "R04.3", [(B, "        if ((qr_sig_hints & QueryResponseSignatureHintsMask::query_opt_rdata_index) && gr.query_opt_rdata) {\n            qrs.query_opt_rdata_index = add_name_rdata(*gr.query_opt_rdata);\n            qrs_filled = true;\n        }", "        if ((qr_sig_hints & QueryResponseSignatureHintsMask::query_opt_rdata_index) && gr.query_opt_rdata) {\n            qrs.query_opt_rdata_index = add_name_rdata(*gr.query_opt_rdata);\n        }")],
+      "OPT rdata inserted without marking the signature filled (table entry can be unreachable)"),
+    m("c04-section-bit", "C04", "R04.1", [(B, "    if ((qr_hints & QueryResponseHintsMask::response_authority_sections) && gr.response_authority", "    if ((qr_hints & QueryResponseHintsMask::query_authority_sections) && gr.response_authority")],
+      "response authority section gated by the query authority bit"),
+    m("c04-rearm-index", "C04", "R04.5", [(CH, "            m_block.set_block_parameters(m_file_preamble.get_block_parameters(m_active_block_parameters),\n                                         m_active_block_parameters);", "            m_block.set_block_parameters(m_file_preamble.get_block_parameters(m_active_block_parameters),\n                                         0);")],
+      "new block records parameter index 0 while using the active parameters"),
+    m("c04-hint-word-swap", "C04", "R04.5", [(FP, "    written += enc.write(get_map_index(CDNS::StorageHintsMapIndex::rr_hints));\n    written += enc.write(rr_hints);", "    written += enc.write(get_map_index(CDNS::StorageHintsMapIndex::rr_hints));\n    written += enc.write(other_data_hints);")],
+      "preamble writes other_data_hints under the rr-hints key"),
+]
+
+NEUTRAL += [
+    {"id": "n-hints-ref-binding", "props": ["C04"],
+     "edits": [(B, "    uint32_t qr_hints = m_block_parameters.storage_parameters.storage_hints.query_response_hints;\n    uint32_t qr_sig_hints = m_block_parameters.storage_parameters.storage_hints.query_response_signature_hints;",
+                "    const auto& hints = m_block_parameters.storage_parameters.storage_hints;\n    const uint32_t& qr_hints = hints.query_response_hints;\n    uint32_t qr_sig_hints = hints.query_response_signature_hints;")]},
+    {"id": "n-hint-test-swapped", "props": ["C04"],
+     "edits": [(B, "    if ((qr_hints & QueryResponseHintsMask::client_port) && gr.client_port) {", "    if (gr.client_port && (QueryResponseHintsMask::client_port & qr_hints) != 0) {")]},
+]
